@@ -3,6 +3,6 @@
 (* (the decisions the environment took and the verdicts of the model).     *)
 EXTENDS CertChain, Json
 EmitB == Done => PrintT("B " \o ToJson([targets |-> targets, by |-> by, link |-> link,
-                                          rootkey |-> rootkey, swap |-> swap, shape |-> shape, spell |-> spell, shapeson |-> ShapesOn, phase |-> phase,
+                                          rootkey |-> rootkey, swap |-> swap, shape |-> shape, spell |-> spell, log |-> log, ops |-> ops, shapeson |-> ShapesOn, phase |-> phase,
                                           result |-> result]))
 =============================================================================
